@@ -73,25 +73,29 @@ PLAN = {
                           "reports matched/consumed*100, which is < 100 as soon as one tuple with size > 0 mismatches; Padder.__next__ / "
                           "HashChecker.advance (absent data = zero pieces of the right sizes); HashChecker.process_current (one tuple for the next "
                           "piece of the current file: recorded hash slice, path, size min(remaining, piece length)) and next_file (next listed "
-                          "file, its length and recorded hashes).  That the checkers yield exactly one tuple per "
+                          "file, its length and recorded hashes, the right hasher object) and HashChecker.__next__ (per call the tuple returned is the "
+                          "next unreported piece in (file, piece) order; only files with nothing to report are passed over; it stops only after "
+                          "the last listed file); Checker.find_root.  For v1 (FeedChecker) that the checker yields exactly one tuple per "
                           "piece of the payload (coverage clause) is decided by the bounded harness (12.5k damage cases quick, 147k thorough) "
                           "against an independent reference recheck",
             "level_note": "coverage clause of FeedChecker / HashChecker bounded, not proved; SHA collision-freeness assumed; float percentage read over exact rationals",
-            "modulo_bounded": ["FeedChecker.iter_pieces / extract / _gen_padding", "HashChecker.__next__ (composition of the proved next_file / process_current over calls)", "Checker.check_paths / find_root"],
+            "modulo_bounded": ["FeedChecker.iter_pieces / extract / _gen_padding (v1)", "induction over the calls of HashChecker.__next__ (hand argument)", "Checker.check_paths / walk_file_tree"],
             "trusted": ["different bytes give different hashes (cryptographic assumption)", "float: 0 <= m < c < 2^52 => fl(fl(m/c)*100) < 100 (hand argument, DESIGN 3.3-2)"]},
     "C05": {"functions": [], "harness": True,
-            "level_text": "arithmetic core proved (all pieces matching and consumed > 0 gives exactly 100); path discovery (find_root, check_paths, "
-                          "walk_file_tree) and the coverage clause are decided by the bounded harness over torrentfile-written and "
+            "level_text": "arithmetic core proved (all pieces matching and consumed > 0 gives exactly 100); Checker.find_root proved (the payload "
+                          "root is taken as it is, a parent directory resolves to the entry named like the torrent -- the two content-path "
+                          "spellings reach the same root); the v2 piece iteration proved per call (HashChecker.*); check_paths / walk_file_tree "
+                          "and the v1 coverage clause are decided by the bounded harness over torrentfile-written and "
                           "reference-encoded metafiles, content path = root and parent",
             "level_note": "as C04; one known finding (directory torrent whose parent directory has the payload's name)",
-            "modulo_bounded": ["Checker.find_root / check_paths / walk_file_tree", "FeedChecker.*", "HashChecker.*"],
+            "modulo_bounded": ["Checker.check_paths / walk_file_tree", "FeedChecker.*"],
             "trusted": ["pyben.load"]},
     "C16": {"functions": [], "harness": True,
             "level_text": "Checker.iter_hashes proved to report exactly 100 * (sum of sizes of matching tuples) / (sum of sizes); Padder / advance "
                           "sizes proved; that tuple i is exactly piece i of the payload (sizes, independence of verdicts) is decided by the "
                           "bounded harness against the reference piece-by-piece computation",
             "level_note": "as C04; one known finding (padding entries of BEP 47 v1 metafiles weighted as payload)",
-            "modulo_bounded": ["FeedChecker.*", "HashChecker.__next__ (composition over calls)"],
+            "modulo_bounded": ["FeedChecker.* (v1)", "induction over the calls of HashChecker.__next__"],
             "trusted": ["float percentage read over exact rationals"]},
     "C09": {"functions": [], "harness": True,
             "level_text": "Memo.__call__ (the only cache in the package) is proved to return the wrapped function evaluated now, with an arbitrary "
@@ -115,11 +119,14 @@ PLAN = {
                           "__next__ against a stream specification (each call returns SHA-1 of the next piece_length bytes of the concatenated "
                           "files, fewer only at the very end; StopIteration exactly when nothing is left), and TorrentFile.assemble through the "
                           "iterator protocol: info.pieces == v1_pieces(concatenation of the listed files, recorded piece length), every listed "
-                          "file appears once in order with its exact length, single file records its exact length",
-            "level_note": "that the list returned by utils.filelist_total is exactly the regular files below the path (each once) is bounded "
-                          "(_filelist_total recursion over the file system is not under contract); file reads: readinto short only at EOF; SHA-1 "
+                          "file appears once in order with its exact length, single file records its exact length; the directory walk "
+                          "utils._filelist_total proved for every finite directory tree (induction over the tree through the contract of its "
+                          "recursive call): the list returned is exactly the set of regular files at or below the path, the total is the sum "
+                          "of their sizes; Memo.__call__ returns the walk evaluated now",
+            "level_note": "order and absence of duplicates in the list (sorted(); every entry once) are bounded; termination of the walk is "
+                          "not proved (finite tree without symlink cycles assumed); file reads: readinto short only at EOF; SHA-1 "
                           "uninterpreted; L3 (unique prefix of given length) by hand / lemmas/L3_stream.lean",
-            "modulo_bounded": ["utils._filelist_total (directory walk)", "MetaFile.__init__ -> assemble wiring of piece_length (C12 contract)"],
+            "modulo_bounded": ["order / uniqueness of the listing", "MetaFile.__init__ -> assemble wiring of piece_length (C12 contract)"],
             "trusted": ["io.BufferedReader.readinto on regular files", "no concurrent modification while hashing"]},
     "C15": {"functions": [], "harness": True,
             "level_text": "proved from source: with alignment the pieces are v1_pieces of the declared stream in which every file is followed by zero "
@@ -127,30 +134,39 @@ PLAN = {
                           "(-size mod piece length), the listed lengths sum to exactly the hashed bytes, a single file is hashed alone",
             "level_note": "gap(n, pl) axiomatised by its defining equation (-n) mod pl and the three lemma instances used; padding entry marking (attr 'p', "
                           "path) bounded by the harness",
-            "modulo_bounded": ["utils._filelist_total"],
+            "modulo_bounded": ["order / uniqueness of the listing"],
             "trusted": ["as C01"]},
     "C02": {"functions": [], "harness": True,
-            "level_text": "proved from source, for every file size and piece length: next_power_2, merkle_root (= BEP 52 layer-wise root, pairing "
-                          "idiom); the three v2 hashers (FileHasher.__next__/_pad_remaining/_calculate_root per call; HasherV2.process_file and "
-                          "HasherHybrid.process_file over the whole file with nested loop invariants): the piece layer is the concatenation of "
-                          "piece_roots(content) -- per piece the merkle root of the SHA-256 leaves of exactly that piece's bytes padded with zero "
-                          "hashes per BEP 52 -- and the pieces root is the merkle root over the piece layer padded with zero-piece roots to the next "
-                          "power of two; leaf case of the three _traverse functions: exact length, no root for an empty file, a piece-layers entry "
-                          "exactly for files larger than one piece.  The directory branch of _traverse (sorted listing, recursion, nesting) and "
-                          "assemble of the v2 classes are decided by the bounded harness against an independent BEP 52 reference",
-            "level_note": "directory walk bounded; L2 (layer-wise root of padded piece roots == root over all padded leaves) is a hand/Lean lemma, "
-                          "not compiled by the check; piece_roots/leaves are spec functions defined by ground unfolding instances",
-            "modulo_bounded": ["_traverse x3: directory branch", "TorrentFileV2.assemble / TorrentFileHybrid.assemble / TorrentAssembler.assemble"],
+            "level_text": "proved from source, for every finite directory tree, file size and piece length: next_power_2, merkle_root (= BEP 52 "
+                          "layer-wise root, pairing idiom); the three v2 hashers (FileHasher.__next__/_pad_remaining/_calculate_root per call; "
+                          "HasherV2.process_file and HasherHybrid.process_file over the whole file with nested loop invariants): the piece layer "
+                          "is the concatenation of piece_roots(content) -- per piece the merkle root of the SHA-256 leaves of exactly that "
+                          "piece's bytes padded with zero hashes per BEP 52 -- and the pieces root is the merkle root over the piece layer padded "
+                          "with zero-piece roots to the next power of two; the WHOLE WALK TorrentFileV2._traverse / TorrentFileHybrid._traverse "
+                          "(induction over the directory tree through the contract at the recursive call): the value returned is tree_of(path) "
+                          "-- leaf {'': {length[, pieces root]}} for a file, no root for an empty file, for a directory the dictionary over its "
+                          "ascending listing of the trees of its entries -- and piece layers gets a key exactly for the files larger than one "
+                          "piece; TorrentFileV2.assemble / TorrentFileHybrid.assemble for single files and directories (file tree, length, meta "
+                          "version, piece layers); TorrentAssembler (the creator behind the command line): leaf case of _traverse and single-file "
+                          "assemble.  TorrentAssembler's directory walk and the values stored under the layer keys of a directory are decided by "
+                          "the bounded harness against an independent BEP 52 reference",
+            "level_note": "L2 (layer-wise root of padded piece roots == root over all padded leaves) is a hand/Lean lemma, not compiled by the "
+                          "check; piece_roots / leaves / tree_of / layered_under are spec functions defined by ground unfolding instances of "
+                          "their recursive definitions; termination of the walk is not proved",
+            "modulo_bounded": ["TorrentAssembler._traverse: directory branch", "TorrentAssembler.assemble: directory branch",
+                               "piece-layer values (not keys) of directory torrents"],
             "trusted": ["SHA-256 uninterpreted", "L2 merkle decomposition (Lean, DESIGN appendix A)",
-                        "L4: two powers of two in [n, 2n) are equal (uniqueness of the BEP 52 padding count)",
-                        "readinto returns fewer bytes than asked only at end of file", "no concurrent modification while hashing"]},
+                        "L4: two powers of two in [n, 2n) are equal (uniqueness of the BEP 52 padding count and of the padded piece layer)",
+                        "readinto returns fewer bytes than asked only at end of file", "no concurrent modification while hashing",
+                        "os.listdir: a name is listed iff join(dir, name) exists; sorted(os.listdir(d)) is a function of d; finite tree"]},
     "C10": {"functions": [], "harness": True,
             "level_text": "the three v2-capable hashers are each proved against the same spec functions (piece_roots, hybrid_pieces, mroot over the "
                           "padded piece layer), so for one file they agree on root, piece layer, v1 pieces and padding entry; same for the leaf "
-                          "case of the three _traverse functions.  Agreement of whole info dictionaries across creator pairs (directory walk, "
-                          "assemble) is decided by the bounded harness (pairwise comparison)",
+                          "case of the three _traverse functions; TorrentFileV2 and TorrentFileHybrid are proved to produce the same file tree "
+                          "tree_of(path) and the same piece-layer keys for every directory tree.  Agreement with TorrentAssembler on directories "
+                          "and of the v1 views is decided by the bounded harness (pairwise comparison)",
             "level_note": "agreement follows from equal postconditions per file; whole-torrent agreement bounded",
-            "modulo_bounded": ["directory branch of _traverse x3", "assemble of the v2 classes", "TorrentFile (v1) vs hybrid v1 view"],
+            "modulo_bounded": ["TorrentAssembler directory walk", "v1 view of hybrid directories", "TorrentFile (v1) vs hybrid v1 view"],
             "trusted": ["as C02"]},
     "C14": {"functions": [], "harness": True,
             "level_text": "frame: every call site reachable from commands.rebuild is classified from the real call graph; the file system is reached "
@@ -171,7 +187,7 @@ PLAN = {
                           "its padding entry, the v1 pieces are appended.  The order across files in the directory walk and assemble are decided "
                           "by the bounded harness against the reference",
             "level_note": "directory branch of _traverse and assemble bounded",
-            "modulo_bounded": ["directory branch of _traverse", "TorrentAssembler.assemble / TorrentFileHybrid.assemble"],
+            "modulo_bounded": ["order of the v1 list / pieces across the files of a directory", "TorrentAssembler directory walk"],
             "trusted": ["SHA-1 / SHA-256 uninterpreted", "readinto short only at EOF"]},
     "C13": {"functions": [], "harness": True,
             "level_text": "utils.copypath proved (what it writes at dest is a byte-identical copy of the source; parents are created; nothing else "
